@@ -611,6 +611,9 @@ func (in *inst) collectLHS(l ast.Expr, acc *[]access) {
 		if base, name, ok := in.field(t); ok {
 			*acc = append(*acc, access{kind: "F", base: base, name: name, write: true, node: t})
 		}
+		if name, ok := in.qualifiedGlobal(t); ok {
+			*acc = append(*acc, access{kind: "G", name: name, write: true, node: t})
+		}
 		in.collect(t.X, false, acc)
 	case *ast.IndexExpr:
 		if in.isMap(t.X) && pure(t.X) {
@@ -647,6 +650,23 @@ func (in *inst) global(id *ast.Ident) (string, bool) {
 	return v.Pkg().Path() + "." + v.Name(), true
 }
 
+// qualifiedGlobal recognises pkg.V where V is a package-level variable of another package - of this module or of a dependency:
+// what the module's code reads and writes there is the module's behaviour (accesses made inside a dependency are not seen).
+func (in *inst) qualifiedGlobal(s *ast.SelectorExpr) (string, bool) {
+	pk, ok := s.X.(*ast.Ident)
+	if !ok {
+		return "", false
+	}
+	if _, isPkg := in.pkg.TypesInfo.Uses[pk].(*types.PkgName); !isPkg {
+		return "", false
+	}
+	v, ok := in.pkg.TypesInfo.Uses[s.Sel].(*types.Var)
+	if !ok || v.IsField() || v.Pkg() == nil || v.Parent() != v.Pkg().Scope() {
+		return "", false
+	}
+	return v.Pkg().Path() + "." + v.Name(), true
+}
+
 // field recognises x.f where f is a struct field reached through a pointer x (pure chain).
 func (in *inst) field(s *ast.SelectorExpr) (ast.Expr, string, bool) {
 	sl, ok := in.pkg.TypesInfo.Selections[s]
@@ -676,6 +696,9 @@ func (in *inst) collect(e ast.Expr, _ bool, acc *[]access) {
 	case *ast.SelectorExpr:
 		if base, name, ok := in.field(t); ok {
 			*acc = append(*acc, access{kind: "F", base: base, name: name, node: t})
+		}
+		if name, ok := in.qualifiedGlobal(t); ok {
+			*acc = append(*acc, access{kind: "G", name: name, node: t})
 		}
 		in.collect(t.X, false, acc)
 	case *ast.StarExpr:
